@@ -240,6 +240,7 @@ pub fn c06(tier: Tier) -> i32 {
     run_txn(&mut report, "C06", runs);
     metric_matrix(&mut report);
     cancelled_then_committed(&mut report, tier);
+    foreign_writer_rebuild(&mut report);
     report.cov("oracle", "an index built under each of the 7 metrics opens under that metric and fails with UnmatchingDistance under each of the 6 others (49 pairs); after every action of every history over {add, overwrite, append ok/rejected, add with a wrong length, delete present/absent, clear, build, build cancelled at its first poll, commit, abort} on two indexes: Reader::open is Ok / MissingMetadata / NeedBuild exactly as the model's (built, stale) says, need_build() = !built || stale, opening under another metric fails, inside the write transaction and from a fresh read transaction after commit; calls that change nothing leave the raw dump byte-identical; for every poll position of a build over pending changes (add, overwrite, delete, mixed, near-total deletion; built and never-built index), the build is cancelled there and the transaction committed all the same: the index is still refused and need_build() is true from a fresh read transaction, the built neighbour index is untouched");
     report.finish()
 }
@@ -359,6 +360,82 @@ fn cancelled_then_committed(report: &mut Report, tier: Tier) {
     }
     report.cov("cancelled_then_committed_positions", positions);
     report.cov("cancelled_then_committed_refused", refused);
+}
+
+/// "Built with": an index built under metric A is updated and rebuilt through a `Writer` typed with a
+/// metric B of the same leaf layout, without `prepare_changing_distance` (the API allows it). After
+/// that successful build the index was built with B: a reader of B opens, a reader of A is refused,
+/// `need_build` is false. Histories: overwrite existing ids only / add an id / delete an id.
+fn foreign_writer_rebuild(report: &mut Report) {
+    use crate::common::{arroy_db, catch, Scratch, Violation};
+    use arroy::distances::{Euclidean, Manhattan};
+    let mut cases = 0u64;
+    let verdicts: Vec<Result<(), (String, String)>> = crate::explore::in_single_thread_pool(|| {
+        let mut out = Vec::new();
+        for pattern in ["overwrite-only", "add", "delete"] {
+            for a_is_euclidean in [true, false] {
+                let s = Scratch::new("c06f");
+                let r = catch(|| -> Result<(), (String, String)> {
+                    let mut wtxn = s.env.write_txn().unwrap();
+                    let e = |x: arroy::Error| ("SL/foreign-writer".to_string(), x.to_string());
+                    let v = |i: u32, salt: u32| vec![((i * 7 + salt) % 11) as f32 - 5.0, ((i * 3 + salt) % 7) as f32 - 3.0];
+                    macro_rules! scenario {
+                        ($A:ty, $B:ty) => {{
+                            let wa = arroy::Writer::<$A>::new(arroy_db::<$A>(s.db), 0, 2);
+                            for i in 0..8u32 {
+                                wa.add_item(&mut wtxn, i, &v(i, 1)).map_err(e)?;
+                            }
+                            let mut rng = <rand::rngs::StdRng as rand::SeedableRng>::seed_from_u64(verif_seed());
+                            wa.builder(&mut rng).n_trees(2).build(&mut wtxn).map_err(e)?;
+                            let wb = arroy::Writer::<$B>::new(arroy_db::<$B>(s.db), 0, 2);
+                            for i in 0..8u32 {
+                                wb.add_item(&mut wtxn, i, &v(i, 4)).map_err(e)?;
+                            }
+                            match pattern {
+                                "add" => wb.add_item(&mut wtxn, 100, &v(100, 4)).map_err(e)?,
+                                "delete" => {
+                                    wb.del_item(&mut wtxn, 3).map_err(e)?;
+                                }
+                                _ => {}
+                            }
+                            let mut rng = <rand::rngs::StdRng as rand::SeedableRng>::seed_from_u64(verif_seed() + 1);
+                            wb.builder(&mut rng).n_trees(2).build(&mut wtxn).map_err(e)?;
+                            let what = format!("index built under {}, then {pattern} and a successful build through a Writer of {}", stringify!($A), stringify!($B));
+                            if let Err(x) = arroy::Reader::<$B>::open(&wtxn, 0, arroy_db::<$B>(s.db)) {
+                                return Err(("SL/open-after-foreign-build".into(), format!("{what}: a reader of the metric it was just built with does not open: {x}")));
+                            }
+                            match arroy::Reader::<$A>::open(&wtxn, 0, arroy_db::<$A>(s.db)) {
+                                Err(arroy::Error::UnmatchingDistance { .. }) => {}
+                                other => return Err(("SL/open-wrong-metric".into(), format!("{what}: a reader of the old metric gets {:?}", other.map(|_| "Ok").map_err(|x| x.to_string())))),
+                            }
+                            if wb.need_build(&wtxn).map_err(e)? {
+                                return Err(("SL/need-build".into(), format!("{what}: need_build() is still true")));
+                            }
+                            Ok(())
+                        }};
+                    }
+                    if a_is_euclidean {
+                        scenario!(Euclidean, Manhattan)
+                    } else {
+                        scenario!(Manhattan, Euclidean)
+                    }
+                });
+                out.push(match r {
+                    Ok(x) => x,
+                    Err(p) => Err((format!("SL/foreign-writer-panicked:{}", p.site()), format!("{} {}", p.location, p.message))),
+                });
+            }
+        }
+        out
+    });
+    for v in verdicts {
+        cases += 1;
+        if let Err((c, m)) = v {
+            report.add_violation(Violation::new(c, m));
+            break;
+        }
+    }
+    report.cov("foreign_writer_rebuilds", cases);
 }
 
 /// Every (built-with, opened-as) pair of the 7 metrics: Ok on the diagonal, UnmatchingDistance elsewhere.
